@@ -3957,8 +3957,10 @@ func ruleC13R6(w *World, r *Report) {
 	joinByteRefute = true
 	defer func() { joinByteRefute = false }()
 	e.trace = verboseRule() != "" && verboseRule() != "1" && strings.HasPrefix(rule, verboseRule())
-	_ = nt
-	{
+	if os.Getenv("VERIF_C13R6_DEEP") != "" {
+		e.runRoot(nt, map[string]bool{"noPanic": false})
+		e.runRoot(nt, map[string]bool{"noPanic": true})
+	} else {
 		// the scans of consumeToken / consumeFieldToken themselves; other readers only move the cursor forward (that each
 		// of them passes a skip/skipN on every return is C13/R3). The thorough tier used to inline everything from
 		// nextToken instead; that run cannot prove progress behind consumeString in the dot-identifier context (the join of
